@@ -259,6 +259,12 @@ def run(prog, tier, extra=None):
     from ._include import include
     include(res, prog, tier, extra, "c05", ["C05.gate"],
             "a chain-level refusal (golden-ticket density) must come before the first unwind, in Blockchain::validate itself")
+    # "every attempt to add a block terminates": a lock-order cycle or a re-entrant acquisition on the way through add_block never returns
+    AB = CORE + "consensus::blockchain::Blockchain::add_block"
+    ab_reach = {q.replace("::{closure#0}", "") for q in cg.reachable_from([AB, AB + "::{closure#0}"], kinds=("call", "await", "creates"))} | {AB}
+    include(res, prog, tier, extra, "c20", ["C20.inversion", "C20.reacquire", "C20.read-reentry"],
+            "block processing blocked on a lock it (or a peer task) already holds never returns",
+            keep=lambda f: any(part.replace("::{closure#0}", "") in ab_reach for part in f.key.split("|")[1:2]))
     res.explanation = (
         "Decides the insert/undo pairing of add_block: after the candidate block was put into the block ring and into Blockchain.blocks, no exit with FailedNotValid is "
         "reachable without passing a call whose callee removes it from both again. Necessary for 'stored blocks ... exactly as they were'. It does NOT decide termination of "
